@@ -1,4 +1,4 @@
-"""C02 -- archives interoperate with an independent implementation of the MPQ V1/V2 format.
+"""C02 -- archives interoperate with an independent implementation of the MPQ format (V1..V4 incl. HET/BET tables).
 
 The independent implementation is specs/MpqFormat.tla evaluated by TLC (header, encrypted hash/block
 tables, probing, block entries, sector offset tables, file keys incl. FIX_KEY, sector encryption; all
@@ -38,9 +38,15 @@ META = {
                   "single-unit/sectored storage, hash-table size incl. full tables, deleted slots, hi-block table, pre-archive data with and "
                   "without user data header, a same-name entry of another locale, and V3 68-byte headers over classic tables): the reference decodes every library-written archive and the "
                   "library reads every reference-written archive under four spellings; files the builder adds under non-neutral locales (same name under two locales, 0x0409/0x0807) are looked up by (name, locale) and their hash-entry locale/platform fields compared. The reference is model-checked for "
-                  "RefRead(RefWrite(f,c)) = f on 8/16-byte sectors, and each historical deviation of the library is shown to break that round trip.",
-    "level_note": "Trusted: TLC's evaluation of MpqFormat.tla/MpqCrypto.tla/Word32.tla; CPython's zlib/bz2/hashlib. Subset: classic hash/block "
-                  "tables of V1/V2 headers (direction 2 also V3 headers without HET/BET; V4 not), archives <= ~17 KB (hi-block entries are always 0), no HET/BET, no implode/huffman/ADPCM/LZMA/sparse "
+                  "RefRead(RefWrite(f,c)) = f on 8/16-byte sectors, and each historical deviation of the library is shown to break that round trip. "
+                  "Growth round 4 (specs/MpqFormatHB.tla): V3/V4 headers (64-bit size, HET/BET positions, V4 table sizes, raw chunk size, six MD5 digests - TLC names the "
+                  "byte range of each digest, hashlib computes MD5), HET and BET tables (extended header, table keys, optional zlib/bzip2 compression, bit-packed index / entry / "
+                  "name-hash arrays as index arithmetic, lookup = HET probe + BET hash verification over MpqCrypto's hashlittle2): 1/4 of the archives of each direction are V3/V4; "
+                  "library-written ones are read through the classic tables AND through HET/BET, reference-written ones come with the classic tables, with an empty classic hash "
+                  "table, or without classic tables, over name-hash widths 17..64, full and roomy HET arrays, extra/slack bits and compressed tables; seven named HET/BET deviations "
+                  "are refuted on the model.",
+    "level_note": "Trusted: TLC's evaluation of MpqFormat.tla/MpqFormatHB.tla/MpqCrypto.tla/Word32.tla; CPython's zlib/bz2/hashlib (MD5 of TLC-named ranges). Subset: V1..V4 headers, classic hash/block "
+                  "tables and HET/BET tables (no locale twins, no raw chunk digests, classic tables of V4 uncompressed), archives <= ~17 KB (hi-block entries are always 0), no implode/huffman/ADPCM/LZMA/sparse "
                   "payloads, checksum sectors stored raw. Six deviations of the library from the published format were found with this check "
                   "and repaired in /repo (cipher tail d86b8d5, full-path file key f4d4c14, COMPRESS flag of sectored files 9cf2783, per-sector keys "
                   "of uncompressed files 0f74d94, locale preference 20f0bd8, checksum layout 7734a50); they remain in the specification as named "
@@ -132,6 +138,59 @@ def inflate_variant(v):
     return {"res": res, "len": len(out), "tok": tok(out), "plens": plens, "wants": wants, "crc": v.get("crc", "none")}
 
 
+def refopen_x(a, x):
+    """V3/V4 part of the RefOpen event: header integers as decoded by the reference and, for every digest of a V4 header, the
+    digest the header keeps (`want`) next to hashlib's MD5 of the byte range the specification names for it (`got`)."""
+    if not x.get("isx"):
+        return {"asize64": -1, "hetpos": -1, "betpos": -1, "hetsz": -1, "betsz": -1, "htsz": -1, "btsz": -1, "hibtsz": -1, "rawchunk": -1, "md5": []}
+    data = bytes(a["bytes"])
+    md5 = [{"what": g["what"], "want": bytes(g["want"]).hex(), "got": hashlib.md5(data[g["lo"]:g["lo"] + g["len"]]).hexdigest()} for g in x["md5"]]
+    hx = x["hx"]
+    return {"asize64": hx["asize64"], "hetpos": hx["hetpos"], "betpos": hx["betpos"], "hetsz": x["xs"]["hetsz"], "betsz": x["xs"]["betsz"],
+            "htsz": hx["htsz"], "btsz": hx["btsz"], "hibtsz": hx["hibtsz"], "rawchunk": hx["rawchunk"], "md5": md5}
+
+
+def inflate_body(t):
+    """plain body of a HET/BET table from Read_MpqFormat pass 1 (decrypted by TLC; compressed bodies inflated here)."""
+    if t["res"] != "ok":
+        return []
+    p = bytes(t["p"])
+    try:
+        if t["m"] == -1:
+            return list(p)
+        if t["m"] == 2:
+            return list(zlib.decompress(p))
+        if t["m"] == 16:
+            return list(bz2.decompress(p))
+    except Exception:
+        pass
+    return []
+
+
+def decode_dir1(ctx, arch, shards):
+    """Reference reader over the library-written archives.  V3/V4 archives take two TLC passes: pass 1 decrypts the HET/BET
+    tables, Python inflates compressed bodies, pass 2 (all archives) parses the tables and decodes every file."""
+    recs = [json.loads(l) for l in open(arch) if l.strip()]
+    xs = [r for r in recs if r["ver"] >= 2 and r["res"] == "ok"]
+    plain = {}
+    if xs:
+        p1 = ctx.path("lib_archives_x.ndjson")
+        with open(p1, "w") as f:
+            for r in xs:
+                f.write(json.dumps({**r, "xpass": 1, "hetplain": [], "betplain": []}) + "\n")
+        for r, o in zip(xs, tlc_map(ctx, "Read_MpqFormat", p1, "ARCH", "DECODED", shards)):
+            plain[r["case"]] = (inflate_body(o["het"]), inflate_body(o["bet"]))
+        os.remove(p1)
+    p2 = ctx.path("lib_archives_2.ndjson")
+    with open(p2, "w") as f:
+        for r in recs:
+            hp, bp = plain.get(r["case"], ([], []))
+            f.write(json.dumps({**r, "xpass": 0, "hetplain": hp, "betplain": bp}) + "\n")
+    out = tlc_map(ctx, "Read_MpqFormat", p2, "ARCH", "DECODED", shards)
+    os.remove(p2)
+    return out
+
+
 def trace_dir1(arch_path, decoded):
     evs = []
     nfiles = 0
@@ -139,13 +198,18 @@ def trace_dir1(arch_path, decoded):
         a = json.loads(line)
         case = a["case"]
         names = [f["name"] for f in a["files"]]
+        x = d.get("x") or {"isx": False}
         evs.append({"ev": "Reset", "case": case, "dir": 1, "ver": a["ver"], "shift": a["shift"], "crc": a.get("crc", False), "names": names,
+                    "hetbet": a["ver"] >= 2, "classic": True,
                     "lens": [f["len"] for f in a["files"]], "toks": [f["tok"] for f in a["files"]],
                     "twin": {"name": "", "len": -1, "tok": ""},
                     "cfg": {"listfile": a["listfile"], "files": [{k: f[k] for k in ("name", "meth", "enc", "lc", "cc")} for f in a["files"]]}})
         evs.append({"ev": "Build", "case": case, "res": a["res"]})
         hn = d["hn"]
-        evs.append({"ev": "RefOpen", "case": case, "open": d["open"], "base": d["base"], "alen": d["alen"], **hn})
+        evs.append({"ev": "RefOpen", "case": case, "open": d["open"], "base": d["base"], "alen": d["alen"], **hn, "x": refopen_x(a, x)})
+        if x.get("isx") and d["open"] == "ok":
+            evs.append({"ev": "RefTables", "case": case, "hetext": x["hetext"], "betext": x["betext"], "het": x["het"], "bet": x["bet"],
+                        "agree": x["agree"], "slots": x["slots"], "tablecomp": a.get("tablecomp", "none")})
         for f, df in zip(a["files"], d["files"]):
             nfiles += 1
             evs.append({"ev": "RefFile", "case": case, "name": f["name"], "meth": f["meth"], "enc": f["enc"], "lc": f["lc"],
@@ -154,6 +218,14 @@ def trace_dir1(arch_path, decoded):
                         "std": inflate_variant(df["std"]), "rawsame": df["rawsame"],
                         "devs": [{"labels": "+".join(dv["labels"]), "v": inflate_variant(dv["v"]), "rawsame": dv["rawsame"]}
                                  for dv in df["devs"]]})
+        if x.get("isx") and d["open"] == "ok":
+            # the same files through the HET/BET tables (standard x-dialect and the library's)
+            for f, xf in zip(a["files"], x["files"]):
+                nfiles += 1
+                evs.append({"ev": "RefFileX", "case": case, "name": f["name"], "std": inflate_variant(xf["std"]["v"]), "stdraw": xf["std"]["rawsame"],
+                            "lib": inflate_variant(xf["lib"]["v"]), "libraw": xf["lib"]["rawsame"]})
+            for ab, xa in zip(a["absent"], x["absent"]):
+                evs.append({"ev": "RefAbsentX", "case": case, "name": ab["name"], "std": xa["std"], "lib": xa["lib"]})
         for lf, dl in zip(a.get("locfiles", []), d.get("locfiles", [])):
             nfiles += 1
             evs.append({"ev": "RefLocFile", "case": case, "name": lf["name"], "locale": lf["locale"], "want": {"len": lf["len"], "tok": lf["tok"]},
@@ -214,16 +286,53 @@ def compress_unit(raw, meth, zp=None):
     return {"m": -1, "p": list(raw)}
 
 
-def make_file(name, data, meth, enc, unit, ssize, crc=False, zp=None):
+def make_file(name, data, meth, enc, unit, ssize, crc=False, zp=None, secmeth="same"):
     single = (len(data) <= ssize) if unit == "auto" else (unit == "single")
+    # per-sector method: every compressed sector carries its own method byte; "alt" alternates zlib/bzip2 from sector to sector
+    other = {"zlib": "bzip2", "bzip2": "zlib", "none": "none"}[meth]
     if not data:
         secs = []
     elif single:
         secs = [compress_unit(data, meth, zp)]
     else:
-        secs = [compress_unit(data[i:i + ssize], meth, zp) for i in range(0, len(data), ssize)]
+        secs = [compress_unit(data[i:i + ssize], meth if (secmeth != "alt" or (i // ssize) % 2 == 0) else other, zp) for i in range(0, len(data), ssize)]
     return {"name": name, "nb": list(name.encode("utf-8")), "locale": 0, "crc": bool(crc), "fsize": len(data), "enc": enc, "single": single,
             "cflag": meth != "none", "sectors": secs}
+
+
+def compress_table(body, meth):
+    """stored form of a HET/BET body: method byte + stream if that is shorter than the body, else [] (= store raw)."""
+    raw = bytes(body)
+    c = bytes([2]) + zlib.compress(raw, 9) if meth == "zlib" else bytes([16]) + bz2.compress(raw, 9)
+    return list(c) if len(c) < len(raw) else []
+
+
+def patch_md5(data, plan):
+    """fill in the digests of a V4 header: MD5 (hashlib) of each byte range the specification names, header digest last."""
+    b = bytearray(data)
+    for g in plan:
+        b[g["at"]:g["at"] + 16] = hashlib.md5(bytes(b[g["lo"]:g["lo"] + g["len"]])).digest()
+    return bytes(b)
+
+
+def write_dir2(ctx, wcases, wpath, shards):
+    """Reference writer.  Archives whose HET/BET tables are stored compressed take two TLC passes: pass 1 returns the plain
+    table bodies, Python compresses them, pass 2 lays out the archive."""
+    keys = ("case", "cfg", "files", "absentpool")
+    comp = [w for w in wcases if w["cfg"]["tablecomp"] != "none"]
+    if comp:
+        p1 = ctx.path("wcases_x.ndjson")
+        with open(p1, "w") as f:
+            for w in comp:
+                f.write(json.dumps({**{k: w[k] for k in keys}, "xpass": 1}) + "\n")
+        for w, o in zip(comp, tlc_map(ctx, "Write_MpqFormat", p1, "WCASES", "ENCODED", shards)):
+            w["cfg"]["hetstored"] = compress_table(o["hetbody"], w["cfg"]["tablecomp"])
+            w["cfg"]["betstored"] = compress_table(o["betbody"], w["cfg"]["tablecomp"])
+        os.remove(p1)
+    with open(wpath, "w") as f:
+        for w in wcases:
+            f.write(json.dumps({**{k: w[k] for k in keys}, "xpass": 0}) + "\n")
+    return tlc_map(ctx, "Write_MpqFormat", wpath, "WCASES", "ENCODED", shards)
 
 
 def pow2_at_least(n):
@@ -246,9 +355,10 @@ def concretise_dir2(cases, seed):
             rng = random.Random(f"c02r:{seed}:{c['id']}:{fi}")
             data = gen_content(f["cc"], length_of(f["lc"], ssize), rng)
             zp = (f.get("wbits", 15), f.get("zlevel", 6), f.get("zstrat", "default"), f.get("bzlevel", 9))
-            files.append(make_file(f["name"], data, f["meth"], f["enc"], f["unit"], ssize, f.get("crc", False), zp))
+            files.append(make_file(f["name"], data, f["meth"], f["enc"], f["unit"], ssize, f.get("crc", False), zp, f.get("secmeth", "same")))
+            nmeth = len({sc["m"] for sc in files[-1]["sectors"] if sc["m"] >= 0})
             meta.append({"name": f["name"], "len": len(data), "tok": tok(data), "meth": f["meth"], "enc": f["enc"], "lc": f["lc"], "unit": f["unit"] + ("+crc" if f.get("crc") else ""),
-                         "codec": (f"w{zp[0]}l{zp[1]}{zp[2]}" if f["meth"] == "zlib" else f"bz{zp[3]}" if f["meth"] == "bzip2" else "")})
+                         "codec": (f"w{zp[0]}l{zp[1]}{zp[2]}" if f["meth"] == "zlib" else f"bz{zp[3]}" if f["meth"] == "bzip2" else "") + ("+alt" if nmeth > 1 else "")})
         twin = {"name": "", "len": -1, "tok": ""}
         if c.get("twin") and files:
             # same name as file 1, locale 0x409 (enUS), other content, inserted first => earlier in the probe chain;
@@ -265,17 +375,24 @@ def concretise_dir2(cases, seed):
         meta.append({"name": LISTFILE, "len": len(ldata), "tok": tok(ldata), "meth": c["listfile"], "enc": "plain", "lc": "-", "unit": "auto", "codec": ""})
         n = len(files)
         hcount = pow2_at_least(2 * n + 2) if c["roomy"] else pow2_at_least(n + c["ndel"])
+        if c.get("htclass") == "beyond":      # hash table bytes (16 per entry) exceed the archive's offset in the file
+            hcount = max(hcount, pow2_at_least(max(c["prefix"], 512) // 16 + 1))
         # last: differs from a (possibly present) name only in the case of a NON-ASCII letter: another name for the format
         pool = [f"absent{k:02d}.dat" for k in range(24)] + ["Data\\File99.bin", "Interface\\Glue\\caf\u00c9.txt"]
         out.append({"case": c["id"], "ver": c["ver"], "shift": c["shift"],
                     "cfg": {"ver": c["ver"], "shift": c["shift"], "hcount": hcount, "ndel": c["ndel"], "hibt": c["hibt"], "prefixlen": c["prefix"],
-                            "userdata": bool(c.get("userdata")), "twin": bool(c.get("twin"))},
+                            "userdata": bool(c.get("userdata")), "twin": bool(c.get("twin")),
+                            # growth round 4: HET/BET tables (reference writer's free choices), V4 header
+                            "hetbet": bool(c.get("hetbet")), "classic": bool(c.get("classic", True)), "ghost": bool(c.get("ghost")), "hbits": c.get("hbits", 64),
+                            "hettotal": {"full": n, "x2": 2 * n, "plus1": n + 1, "x4": 4 * n}[c.get("hetroom", "x2")],
+                            "iextra": c.get("iextra", 0), "hextra": c.get("hextra", 0), "slack": c.get("slack", 0),
+                            "tablecomp": c.get("tablecomp", "none") if c.get("hetbet") else "none", "hetstored": [], "betstored": []},
                     "files": files, "meta": meta, "twin": twin, "pool": pool, "absentpool": [list(p.encode()) for p in pool]})
     return out
 
 
 # ------------------------------------------------------------------------------------------ signature
-DEV_FINDING = {"crclayout": "C02-CRC-LAYOUT", "localefirst": "C02-LOCALE-FIRST-MATCH", "tail": "C02-ENC-TAIL", "pathkey": "C02-KEY-FULLPATH", "rawtable": "C02-RAW-MULTISECTOR", "oneblock": "C02-RAW-ONEBLOCK"}
+DEV_FINDING = {"libhetbet": "C02-HETBET-DIALECT", "needsclassic": "C02-HETBET-ONLY-REFUSED", "crclayout": "C02-CRC-LAYOUT", "localefirst": "C02-LOCALE-FIRST-MATCH", "tail": "C02-ENC-TAIL", "pathkey": "C02-KEY-FULLPATH", "rawtable": "C02-RAW-MULTISECTOR", "oneblock": "C02-RAW-ONEBLOCK"}
 
 
 def known_devs():
@@ -303,30 +420,32 @@ def run(ctx, cases_override=None):
     # that costs ~50 s before the first state even for a 28-state instance and does not terminate in reasonable
     # time for the round-trip invariants.  So: the full invariants run through ctx.tlc without coverage, with a
     # vacuity guard of our own (the writer/reader machine is a pipeline: every initial state must yield exactly
-    # 15 distinct states at depth 11, i.e. every behaviour took all 8 actions); the coverage run of the tiny
+    # 17 distinct states at depth 13, i.e. every behaviour took all 10 actions); the coverage run of the tiny
     # instance (every action's count > 0, layout invariant) is added in the thorough tier.
-    if thorough:
-        ctx.mc("MC_MpqFormat", env={"C02_MODEL": "cov"}, timeout=900)
+    # (growth round 4) The -coverage run of the tiny instance that the thorough tier used to add (ctx.mc) no longer fits: TLC's coverage
+    # bookkeeping of the HET/BET definitions (MEmitHet/MEmitBet -> HetBody/BetBody, nested LETs) runs out of a 6 GB heap before the
+    # first state, even with the V3/V4 configurations left out.  The vacuity guard below (every configuration yields exactly 17 distinct
+    # states at depth 13 = every behaviour took all 10 actions) is what establishes coverage in both tiers.
     model = "thorough" if thorough else "quick"
     if os.environ.get("C02_MODEL"):          # self-test convenience: C02_MODEL=cov makes stage A a few seconds
         model = os.environ["C02_MODEL"]
     import time as _t
     t0 = _t.time()
-    rc, text = ctx.tlc("MC_MpqFormat", cfg="MC_MpqFormat_full", env={"C02_MODEL": model}, workers=8, timeout=1500, heap="6g", tag="mc-full")
+    rc, text = ctx.tlc("MC_MpqFormat", cfg="MC_MpqFormat_full", env={"C02_MODEL": model}, workers=4, timeout=1500, heap="6g", tag="mc-full")
     m = re.search(r"(\d+) states generated, (\d+) distinct states found, (\d+) states left", text)
     mi = re.search(r"Finished computing initial states: (\d+) distinct states", text)
     md = re.search(r"depth of the complete state graph search is (\d+)", text)
     if rc != 0 or "No error has been found" not in text or not (m and mi and md):
         raise core.ToolError("stage A: MC_MpqFormat_full failed:\n" + core._tail(text))
     ninit, distinct = int(mi.group(1)), int(m.group(2))
-    if distinct != 15 * ninit or int(md.group(1)) != 11:
+    if distinct != 17 * ninit or int(md.group(1)) != 13:
         raise core.ToolError(f"stage A: vacuous model: {ninit} initial states, {distinct} distinct states, depth {md.group(1)}")
-    acts = {"MBegin": ninit, "MAppendFile": 2 * ninit, "MEmitHash": ninit, "MEmitBlock": ninit, "MEmitHiBlock": ninit,
+    acts = {"MBegin": ninit, "MAppendFile": 2 * ninit, "MEmitHet": ninit, "MEmitBet": ninit, "MEmitHash": ninit, "MEmitBlock": ninit, "MEmitHiBlock": ninit,
             "MPatchHeader": ninit, "MReadFile": 12 * ninit, "MReadAbsent": 4 * ninit}
     ctx.mc_stats.append({"module": "MC_MpqFormat", "cfg": "MC_MpqFormat_full", "states": distinct, "transitions": int(m.group(1)),
                          "actions": acts, "wall_s": round(_t.time() - t0, 1)})
-    core.log(f"(A) MC_MpqFormat_full[{model}]: {ninit} configurations, {distinct} distinct states, depth 11; "
-             f"LayoutOk, RoundTrip, AbsentNotFound, DeviationsBreak hold ({round(_t.time() - t0, 1)}s)")
+    core.log(f"(A) MC_MpqFormat_full[{model}]: {ninit} configurations, {distinct} distinct states, depth 13; "
+             f"LayoutOk, RoundTrip, AbsentNotFound, DeviationsBreak, DeviationsBreakX, DeviationsBreakXL hold ({round(_t.time() - t0, 1)}s)")
 
     # (B)
     if cases_override:
@@ -335,12 +454,12 @@ def run(ctx, cases_override=None):
         cases_path, _ = ctx.gen("Gen_MpqFormat")
     cases = [json.loads(l) for l in open(cases_path)]
     binary = ctx.build("c02")
-    shards = 12 if thorough else 8
+    shards = 4          # parallel TLC processes (one worker each)
 
     # direction 1: library writes, reference reads
     arch = ctx.harness(binary, cases_path, trace_name="lib_archives.ndjson", extra=("write",))
     t1 = _t.time()
-    decoded = tlc_map(ctx, "Read_MpqFormat", arch, "ARCH", "DECODED", shards)
+    decoded = decode_dir1(ctx, arch, shards)
     core.log(f"(C1) Read_MpqFormat: reference decoded {len(decoded)} library-written archives in {round(_t.time() - t1, 1)}s")
     ev1, nfiles1 = trace_dir1(arch, decoded)
     narch1 = len(decoded)
@@ -348,11 +467,8 @@ def run(ctx, cases_override=None):
     # direction 2: reference writes, library reads
     wcases = concretise_dir2(cases, ctx.seed)
     wpath = ctx.path("wcases.ndjson")
-    with open(wpath, "w") as f:
-        for w in wcases:
-            f.write(json.dumps({k: w[k] for k in ("case", "cfg", "files", "absentpool")}) + "\n")
     t1 = _t.time()
-    written = tlc_map(ctx, "Write_MpqFormat", wpath, "WCASES", "ENCODED", shards) if wcases else []
+    written = write_dir2(ctx, wcases, wpath, shards) if wcases else []
     core.log(f"(C2) Write_MpqFormat: reference wrote {len(written)} archives (+{sum(len(o['vars']) for o in written)} deviation variants) in {round(_t.time() - t1, 1)}s")
     adir = ctx.path("refarchives")
     os.makedirs(adir, exist_ok=True)
@@ -364,11 +480,11 @@ def run(ctx, cases_override=None):
             if not o["selfok"]:
                 raise core.ToolError(f"reference writer produced an archive the reference reader rejects (case {w['case']}): model defect")
             sp = os.path.join(adir, f"r{w['case']}.std.mpq")
-            open(sp, "wb").write(bytes(o["std"]))
+            open(sp, "wb").write(patch_md5(o["std"], o["md5"]))
             vps = []
             for j, vb in enumerate(o["vars"]):
                 vp = os.path.join(adir, f"r{w['case']}.v{j + 1}.mpq")
-                open(vp, "wb").write(bytes(vb))
+                open(vp, "wb").write(patch_md5(vb, o["varmd5"][j]) if o["varmd5"] else bytes(vb))
                 vps.append(vp)
             nvars += len(vps)
             keep = [i for i, m in enumerate(w["meta"]) if m is not None]          # the locale twin is not read by name
@@ -427,7 +543,8 @@ def run(ctx, cases_override=None):
         "rejected_by_reason": by_why,
         "exhaustive": False,
     }
-    assumptions = ["classic hash/block tables with V1/V2 headers (reference-written archives also with V3 headers, HET/BET positions 0); HET/BET and implode/huffman/ADPCM/LZMA/sparse payloads are outside the subset",
+    assumptions = ["V1..V4 headers, classic hash/block tables and HET/BET tables (1/4 of the archives per run are V3/V4, seed-rotated); implode/huffman/ADPCM/LZMA/sparse payloads, raw chunk digests and compressed classic tables are outside the subset",
+                   "what the published format says where docs/src/formats/archives/mpq.md is silent (HET/BET name hash = hashlittle2 of the lower-cased name, top bit forced, BET keeps the low bits) follows StormLib's documented behaviour; the sandbox is offline, no StormLib-written V3/V4 archive was available",
                    "archives <= ~17 KB, so hi-block-table entries and the high header words are always 0; checksum sectors are written raw",
                    "names are UTF-8 strings (the library's API takes &str); spellings tried on read change ASCII case and slash direction only",
                    "zlib/bzip2 streams are produced/consumed by CPython's zlib and bz2 modules; SHA-1 tokens by hashlib"]
